@@ -389,11 +389,22 @@ impl<'a, R: Clone> AsyncGlobalCache<'a, R> {
 
             // Expired - remove and continue
             drop(entry_ref);
-            self.cache.remove(key);
+
+            // Take the order lock before touching the map (the order `insert` uses) and drop
+            // the entry only if it is still the expired one: a concurrent call may already
+            // have stored a fresh value for this key, and erasing that value's queue entry
+            // would leave it cached but unknown to the eviction queue.
+            let mut order = self.order.lock();
+            let ttl = self.ttl;
+            let removed = self.cache.remove_if(key, |_, entry| match ttl {
+                Some(ttl) => now.saturating_sub(entry.1) >= ttl,
+                None => false,
+            });
 
             // Also remove from order queue to prevent orphaned keys
-            let mut order = self.order.lock();
-            order.retain(|k| k != key);
+            if removed.is_some() {
+                order.retain(|k| k != key);
+            }
         }
 
         // Record cache miss
